@@ -9,11 +9,11 @@ HOOKS = {
 }
 
 ENGINES_DOC = [
-    {"name": "spec", "path": "spec/", "serves_properties": ["C01", "C02", "C03", "C04", "C07", "C08", "C09", "C17", "C20", "C05", "C06", "C10", "C11", "C12", "C13", "C14", "C15", "C16"],
+    {"name": "spec", "path": "spec/", "serves_properties": ["C01", "C02", "C03", "C04", "C07", "C08", "C09", "C17", "C18", "C20", "C05", "C06", "C10", "C11", "C12", "C13", "C14", "C15", "C16"],
      "kind_free_text": "TLA+ modules (single source of truth) checked with TLC"},
-    {"name": "harness", "path": "harness/", "serves_properties": ["C01", "C02", "C03", "C04", "C07", "C08", "C09", "C17", "C20", "C05", "C06", "C10", "C11", "C12", "C13", "C14", "C15", "C16"],
+    {"name": "harness", "path": "harness/", "serves_properties": ["C01", "C02", "C03", "C04", "C07", "C08", "C09", "C17", "C18", "C20", "C05", "C06", "C10", "C11", "C12", "C13", "C14", "C15", "C16"],
      "kind_free_text": "Rust conformance harness: replays TLC-generated behaviours on the real code, records traces/rows for TLC to judge"},
-    {"name": "orchestrator", "path": "bin/check", "serves_properties": ["C01", "C02", "C03", "C04", "C07", "C08", "C09", "C17", "C20", "C05", "C06", "C10", "C11", "C12", "C13", "C14", "C15", "C16"],
+    {"name": "orchestrator", "path": "bin/check", "serves_properties": ["C01", "C02", "C03", "C04", "C07", "C08", "C09", "C17", "C18", "C20", "C05", "C06", "C10", "C11", "C12", "C13", "C14", "C15", "C16"],
      "kind_free_text": "python3 driver: build, TLC, replay/validation, evidence, exit code"},
 ]
 
@@ -171,7 +171,17 @@ CHECKS.update({
     },
 })
 
+CHECKS.update({
+    "C18": {
+        "engine": "spec",
+        "text": "Suffix.tla states the general SCPI rule (suffix = [multiplier] unit per quantity, M = milli / MA = mega with the MHZ and MOHM exceptions, named units with their factor and offset to the SI base unit, case-insensitive) and judges ~48k rows recorded from the 14 uom quantity conversions (f32 and f64), Amplitude<> and Db<>: an accepted suffix must denote literal x multiplier x unit (+ offset) within 1e-5, a suffix the rule does not allow for the quantity must be rejected, acceptance must not depend on letter case, PK/PP/RMS and DB* classify without changing the number.",
+        "design_ref": "DESIGN.md 3 C18",
+        "note": "The unit table is transcribed from memory of SCPI-99 vol. 1 7.1.4; the library may reject combinations the rule allows (subset); ANN is accepted as 365 or 365.25 days.",
+        "technique": "TLA+ specification of the suffix rule on exact decimal arithmetic; TLC judges rows recorded from the conversions",
+    },
+})
+
 NOT_APPLICABLE = [
     {"property_id": p, "reason": "check under construction in this round (see DESIGN.md 6, construction order); not yet claimed"}
-    for p in ["C18", "C19"]
+    for p in ["C19"]
 ]
